@@ -211,3 +211,26 @@ def s1_reverse_inside_plain_context(data):
 
 _add("s1_reverse_inside_plain_context", Tmpl(b" cmd /c echo reverse('", (3, "digit"), b"') ", (1, "digit")), s1_reverse_inside_plain_context,
      funcs=["multidecoder.decoders.shell.find_cmd_strings", "multidecoder.decoders.reverse.find_reverse"])
+
+
+def s1_hex_with_base64_in_registry(data):
+    # a bare hexadecimal layer (upper- or lower-case) while the base64 decoder is registered as well: the hex text is
+    # also a syntactically valid base64 blob; it must be reported as hexadecimal only
+    from multidecoder.decoders.base64 import find_base64
+    from multidecoder.decoders.hex import find_hex
+    from vlib.ref.codecs import hex_decode_chars
+
+    md = Multidecoder(decoders=[find_base64, find_hex, find_executable_name])
+    root = md.scan(data)
+    enc = list(data[1:-1])
+    payload = hex_decode_chars(enc)
+    r = chain_ok(data, root, [("", "decoded.hexadecimal", payload)], 1, len(enc), payload)
+    if r is not True:
+        return r, True
+    return flat_ok(data, root, data[:1], data[-1:], payload, False), True
+
+
+_add("s1_hex_upper_with_base64_registered", Tmpl(b" ", b"4A4B4C4D4E4F5A5B5C5D", (2, "uhex"), b"7E", b" "), s1_hex_with_base64_in_registry,
+     funcs=["multidecoder.decoders.hex.find_hex", "multidecoder.decoders.base64.find_base64"], extra_pre="not (h0 == 48 and h1 == 48)")
+_add("s1_hex_lower_with_base64_registered", Tmpl(b" ", b"4a4b4c4d4e4f5a5b5c5d", (2, "lhex"), b"7e", b" "), s1_hex_with_base64_in_registry,
+     funcs=["multidecoder.decoders.hex.find_hex", "multidecoder.decoders.base64.find_base64"], extra_pre="not (h0 == 48 and h1 == 48)")
